@@ -102,6 +102,7 @@ type World struct {
 	handles          []*sod.DB
 	absOps           []string
 	lastPut          []putRecord
+	noHostile        bool
 	fixedQueries     []Query
 	maxLive          int
 }
@@ -342,7 +343,22 @@ func (w *World) Put(x *Rec, kind string) writeOutcome {
 	} else {
 		w.rejects++
 	}
+	// hostile caller: whatever happens to the caller's object after the call
+	// returned must not matter (the model keeps its own copy)
+	w.hostileScramble(x)
 	return out
+}
+
+// hostileScramble overwrites every exported field reachable from a caller's
+// object after the API call that received it has returned.
+func (w *World) hostileScramble(x *Rec) {
+	if w.noHostile || x == nil {
+		return
+	}
+	u := x.UUID()
+	scramble(x)
+	x.Initialize(u)
+	stats.Count("caller_objects_scrambled", 1)
 }
 
 // Insert a fresh object.
